@@ -408,9 +408,16 @@ def filter_citations(citations: List[CitationBase]) -> List[CitationBase]:
     if not citations:
         return citations
 
-    citations = list(
-        {citation.span(): citation for citation in citations}.values()
-    )
+    unique_citations: dict = {}
+    for citation in citations:
+        span = citation.span()
+        if isinstance(citation, ReferenceCitation) and not isinstance(
+            unique_citations.get(span, citation), ReferenceCitation
+        ):
+            # a reference citation never replaces another kind of citation
+            continue
+        unique_citations[span] = citation
+    citations = list(unique_citations.values())
     sorted_citations = sorted(
         citations, key=lambda citation: citation.full_span()
     )
